@@ -576,6 +576,11 @@ func (c *handlerCtx) writeReply(stat *Status) *Status {
 		c.output.SetBody(nil)
 		c.output.SetBodyCodec(codec.NilCodecID)
 	}
+	if c.output.Context().Err() != nil {
+		// The handling context (ContextAge) expired while the call was being handled.
+		// The caller is still waiting for this reply, so it must not be refused by write.
+		socket.WithContext(nil)(c.output)
+	}
 	serviceMethod := c.output.ServiceMethod()
 	c.output.SetServiceMethod("")
 	_, stat = c.sess.write(c.output)
